@@ -266,10 +266,11 @@ Qed.
 
 (* ---------------------------------------------------------------------------------------------- *)
 (* sentence 3 as worded (scanner and parser agree where each expression ends) is false of the model, with the inputs of
-   the two known: lines (F10b): (a) in  "a\\" & ")"  followed by a closing parenthesis the scanner ends the expression
-   after the second literal (closed_expr), and the parser rejects exactly that text (the lexer reads  "a\\" & "  as one
-   TEXT token); (b)  "a\\" & "  is accepted by lexer and parser as ONE text literal, and the scanner, started after the
-   opening parenthesis, never closes it (unterminated: the template stays literal text) *)
+   the two known: lines (F10b).  Write Q for a quote character.  (a) In  Qa\\Q & Q)Q  followed by a closing parenthesis
+   the scanner ends the expression after the second literal (closed_expr), and the parser rejects exactly that text
+   (the lexer reads  Qa\\Q & Q  as one TEXT token).  (b)  Qa\\Q & Q  is accepted by lexer and parser as ONE text
+   literal, and the scanner, started after the opening parenthesis, never closes it (unterminated: the template stays
+   literal text). *)
 Theorem scanner_parser_agree_refuted :
   (exists e, closed_expr e /\ exists ts, lex e = LOk ts /\ parse_tokens ts = PSyntax)
   /\ (exists e v, unterminated e /\ lex e = LOk [tok TEXT e] /\ parse_tokens [tok TEXT e] = POk (EText v)).
